@@ -11,15 +11,23 @@
         mutually independent tasks (`interleavings_swapEquiv`) — give reports with the same content, hence, under the
         guard, the same view: `report_independent_of_interleaving`.
 
+    (d) the REAL streams of an N-thread run and of a 1-thread run differ in thread ids, times and attachment counters; these
+        are labels the writer only copies (times, counters: `only_timestamps_differ`) or only uses as keys (thread ids:
+        `thread_ids_are_only_keys`), so the harness's re-labelling does not change the folded report, and
+        `n_threads_equals_one_thread` carries (c) back to the real streams: equal views up to timestamps.
+
   What is NOT proved here (it is the subject of C01/C07 and of the harness streams): that the streams the real runner
-  produces under two schedules ARE swap-equivalent and obey the discipline `disc` (each result location started once, step
-  ends and logs emitted at the location of the emitting thread's current step, unique sibling names).
+  produces under two schedules always pass the check `nThreadsCheckB` (same events, same order of the dependent ones, inside
+  the discipline: each result location started once, step ends and logs emitted at the location of the emitting thread's
+  current step, unique sibling names) — this is decided by the verified boolean on every generated pair.
 
   Part (a): what the rank-sorted accessors (`SuiteResult.get_tests/get_suites`, `Report.get_suites`:
   `sorted(..., key=rank)`, stable) remove — the order in which children ARRIVED — and the exact guard under which they
   remove it (pairwise distinct sibling ranks; defect D5 is the refutation without it).
 -/
 import LccModel.Lemmas.WriterSwap
+import LccModel.Lemmas.WriterTrace
+import LccModel.Lemmas.WriterNThreads
 
 namespace LccModel.C05
 open LccModel.Report LccModel.Writer
@@ -232,6 +240,34 @@ theorem report_independent_of_interleaving_of_two_tasks {pre post A B es es' : L
       SameContent r₁ r₂ ∧ (DistinctSiblingRanks r₁ → view r₁ = view r₂) :=
   report_independent_of_interleaving (interleavings_swapEquiv h h' hi) hd
 
+/-- **Two schedules of the same run** (any number of tasks and threads).  If two streams consist of the same events
+    (`Perm`, no event twice) and every two DEPENDENT events (`¬ Indep`: same result location, same thread, a suite start
+    and what happens inside the suite, …) are ordered the same way by both — which is what two schedules of one run
+    differ by, and what the harness checks on every pair (N threads, 1 thread) of real streams after renaming thread ids
+    and times — then they are swap-equivalent (the projection lemma of trace theory, `Lemmas/WriterTrace.lean`). -/
+theorem schedules_are_swapEquiv {es₁ es₂ : List Event} (hn : es₁.Nodup) (hp : es₁.Perm es₂)
+    (hord : ∀ a b, a ≠ b → ¬ Indep a b → Before es₁ a b → Before es₂ a b) : SwapEquiv es₁ es₂ :=
+  swapEquiv_of_same_dependent_order es₁ es₂ hn hp hord
+
+/-- …hence **the report does not depend on the schedule**: same events, same order of the dependent ones, one of the
+    streams handled without error ⟹ the other one is too, the reports have the same content and, under distinct sibling
+    ranks, equal rank-sorted views. -/
+theorem report_independent_of_schedule {es₁ es₂ : List Event} (hn : es₁.Nodup) (hp : es₁.Perm es₂)
+    (hord : ∀ a b, a ≠ b → ¬ Indep a b → Before es₁ a b → Before es₂ a b) (hd : Disciplined es₁) :
+    Disciplined es₂ ∧ ∃ r₁ r₂, fold es₁ = .ok r₁ ∧ fold es₂ = .ok r₂ ∧ SameContent r₁ r₂ ∧
+      (DistinctSiblingRanks r₁ → view r₁ = view r₂) :=
+  report_independent_of_interleaving (schedules_are_swapEquiv hn hp hord) hd
+
+/-- **The check the harness runs on every pair of real streams is sound**: when the boolean `scheduleCheckB es₁ es₂`
+    (`Lemmas/WriterTrace.lean`, executed by `drivers/C05.lean` on the fired stream of the N-thread run and the re-labelled
+    stream of the 1-thread run) answers `true`, both streams are handled without error, the two reports have the same
+    content and, under distinct sibling ranks, equal views. -/
+theorem checked_schedules_give_the_same_report {es₁ es₂ : List Event} (h : scheduleCheckB es₁ es₂ = true) :
+    Disciplined es₂ ∧ ∃ r₁ r₂, fold es₁ = .ok r₁ ∧ fold es₂ = .ok r₂ ∧ SameContent r₁ r₂ ∧
+      (DistinctSiblingRanks r₁ → view r₁ = view r₂) := by
+  obtain ⟨hn, hp, hord, hd⟩ := scheduleCheckB_sound h
+  exact report_independent_of_schedule hn hp hord hd
+
 /-! ### non-vacuity: two tests of one suite run by two threads, two interleavings -/
 
 def evA (tid : Nat) : List Event :=
@@ -282,5 +318,280 @@ example : insertionNames (fold parallelRun') = [["a", "b"]] ∧ insertionNames (
 example : ∃ r₁ r₂, fold parallelRun' = .ok r₁ ∧ fold parallelRun = .ok r₂ ∧ SameContent r₁ r₂ ∧
     (DistinctSiblingRanks r₁ → view r₁ = view r₂) :=
   (report_independent_of_interleaving parallelRun_swapEquiv parallelRun'_disciplined).2
+
+/-- non-vacuity of `report_independent_of_schedule`: the two concrete runs above satisfy its hypotheses (decidable) -/
+example : scheduleCheckB parallelRun' parallelRun = true := by decide
+
+example : parallelRun'.Nodup ∧ parallelRun'.Perm parallelRun ∧
+    (∀ a ∈ parallelRun', ∀ b ∈ parallelRun', a ≠ b → ¬ Indep a b → Before parallelRun' a b → Before parallelRun a b) := by
+  refine ⟨by decide, by decide, by decide⟩
+
+/-! ## Part (d): the REAL streams of an N-thread run and of a 1-thread run
+
+  Two real streams of one project are not made of the same events: they differ in THREAD IDS (which worker ran which test;
+  with one thread every test shares the worker's id), in TIMES and in the global counter of attachment file names.  Before
+  `scheduleCheckB` runs, the harness re-labels them (harness/props/c05.py).  This part proves that the re-labelling does
+  not change what the writer folds, and closes the chain
+
+      real N-thread stream ~ re-labelled ~swap~ re-labelled 1-thread stream ~ real 1-thread stream.
+-/
+
+/-! ### (d1) times and attachment counters -/
+
+/-- **The labels the writer copies are only copied.**  For every re-labelling `L` of times and attachment file names whose
+    step-end component keeps "is zero" (`Lab.Ok`: `step.end_time` is the one time the writer reads back —
+    `assert not step.end_time` — and Python truthiness makes `0` mean "not ended"), folding the re-labelled stream gives the
+    re-labelled outcome: the same error, or the re-labelled report. -/
+theorem fold_commutes_with_relabelling_of_times {L : Lab} (hL : L.Ok) (es : List Event) :
+    fold (es.map (labEvent L)) = Except.map (labReport L) (fold es) :=
+  fold_lab hL es
+
+/-- …step by step, on any state (same error or re-labelled new state), and for the discipline -/
+theorem apply_commutes_with_relabelling_of_times {L : Lab} (hL : L.Ok) (w : WriterState) (e : Event) :
+    apply (labState L w) (labEvent L e) = Except.map (labState L) (apply w e) ∧
+    dapply (labState L w) (labEvent L e) = Except.map (labState L) (dapply w e) :=
+  ⟨apply_lab hL w e, dapply_lab hL w e⟩
+
+/-- **Only timestamps differ** (times).  Two streams that are, position by position, the same event up to times — a
+    step-end time being replaced only by a time that is zero iff it is — and up to the counter in attachment file names
+    (`SameUpToLabels`), are handled with the same outcome: the same error, or reports that are EQUAL once times and
+    attachment counters are erased (`eraseTimes`: every time that is set becomes `some 0`, every entry time 0,
+    `attachments/000k_name` becomes `attachments/name`). -/
+theorem only_timestamps_differ {es es' : List Event} (h : SameUpToLabels es es') :
+    Except.map eraseTimes (fold es) = Except.map eraseTimes (fold es') :=
+  fold_sameUpToLabels h
+
+/-- the same for a per-event time re-labelling `τ` (`τ e` is `e` up to its time, with the zero-ness of a step-end time kept,
+    and up to the attachment counter) -/
+theorem retimed_stream_folds_the_same {τ : Event → Event} (hτ : ∀ e, labEvent normLab (τ e) = labEvent normLab e)
+    (es : List Event) : Except.map eraseTimes (fold (es.map τ)) = Except.map eraseTimes (fold es) :=
+  fold_sameUpToLabels (sameUpToLabels_map hτ es)
+
+/-- the re-labelling the harness applies: every time := the position of the event.  Side condition: no step ends at time 0. -/
+theorem times_as_positions_fold_the_same (es : List Event) (h : ∀ e ∈ es, stepEndAtZero e = false) :
+    Except.map eraseTimes (fold (retimeFrom 0 es)) = Except.map eraseTimes (fold es) :=
+  fold_sameUpToLabels (retimeFrom_sameUpToLabels 0 es h)
+
+/-- streams that differ in labels only are inside the discipline together -/
+theorem disciplined_of_sameUpToLabels {es es' : List Event} (h : SameUpToLabels es es') : Disciplined es ↔ Disciplined es' :=
+  ⟨drun_sameUpToLabels h, drun_sameUpToLabels h.symm⟩
+
+/-- `view` commutes with `eraseTimes`; the guard `DistinctSiblingRanks` does not see times -/
+theorem view_commutes_with_eraseTimes (r : Report) :
+    view (eraseTimes r) = eraseTimesSuites (view r) ∧ (DistinctSiblingRanks (eraseTimes r) ↔ DistinctSiblingRanks r) :=
+  ⟨view_eraseTimes r, distinctSiblingRanks_eraseTimes r⟩
+
+def zeroEnd (t : Time) : List Event :=
+  [.suiteStart ["s"] (mdr "s" 0) 1, .testStart ["s", "a"] (mdr "a" 0) 2, .stepStart tA "st" 1 3, .stepEnd tA "st" 1 t,
+   .log tA (some "st") 1 .info "late" 9]
+
+def errOf : Except WriterErr Report → Option WriterErr
+  | .ok _ => none
+  | .error e => some e
+
+/-- **The side condition is exact**: a step-end time of 0 is not "only a timestamp".  The same stream with the step ended
+    at time 0 / at time 5: after `stepEnd … 0` the step still accepts a log (`step.end_time` is falsy), after `stepEnd … 5`
+    the same log raises the `assert not step.end_time` AssertionError.  (Real step-end times are `time.time()`, never 0.) -/
+theorem zero_step_end_time_is_not_only_a_timestamp :
+    errOf (fold (zeroEnd 0)) = none ∧ errOf (fold (zeroEnd 5)) = some .assertStepEnded := by decide
+
+/-! ### (d2) thread ids -/
+
+/-- **Thread ids are only keys.**  `es` is handled without error within the strengthened discipline (`DisciplinedT`: `disc`,
+    unique sibling names, and the session setup / teardown result started while no step binding points into it), and `ρ`
+    — new thread id from the event's result location and its old id — is injective on the (location, thread id) pairs
+    that occur in `es`.  Then the re-labelled stream is handled without error within the same discipline and folds to the
+    SAME report (the report holds no thread id).  In particular a worker that runs several tests may be split into one id
+    per test. -/
+theorem thread_ids_are_only_keys {ρ : Loc → Nat → Nat} {es : List Event} (hd : DisciplinedT es) (hinj : TidInjOn ρ es) :
+    DisciplinedT (es.map (relabelTid ρ)) ∧ fold (es.map (relabelTid ρ)) = fold es := by
+  obtain ⟨w, hw⟩ := hd
+  obtain ⟨w', hw', hr⟩ := drunT_relabelTid hinj hw
+  exact ⟨⟨w', hw'⟩, by rw [fold_of_drunT hw', fold_of_drunT hw, hr]⟩
+
+/-- **…general form**: instead of injectivity, `ρ` keeps every lookup of `active_steps` on the same binding — a condition on the
+    stream alone, decided by `tidSimB ρ es` (at every step end / log of thread `t` at location `l`, the most recent binding
+    pushed under key `t` and the most recent binding pushed under key `ρ l t` are the same one).  This covers the MERGING of
+    the ids of threads that do not overlap — CPython re-uses `threading.get_ident()` values of ended threads, so one real
+    run may give two `lcc.Thread`s of a test the same id while the other run tells them apart.  `TidOk ρ es` := injective on
+    the pairs of `es`, or `tidSimB ρ es`. -/
+theorem thread_ids_are_only_keys_general {ρ : Loc → Nat → Nat} {es : List Event} (hd : DisciplinedT es) (hok : TidOk ρ es) :
+    DisciplinedT (es.map (relabelTid ρ)) ∧ fold (es.map (relabelTid ρ)) = fold es := by
+  obtain ⟨w, hw⟩ := hd
+  obtain ⟨w', hw', hr⟩ := drunT_relabelTid_ok hok hw
+  exact ⟨⟨w', hw'⟩, by rw [fold_of_drunT hw', fold_of_drunT hw, hr]⟩
+
+/-- the strengthened discipline implies the discipline of parts (b), (c) -/
+theorem disciplined_of_disciplinedT {es : List Event} (h : DisciplinedT es) : Disciplined es := by
+  obtain ⟨w, hw⟩ := h
+  exact ⟨w, drun_of_drunT hw⟩
+
+def twoOpen : List Event :=
+  preS ++ [.testStart ["s", "a"] (mdr "a" 0) 2, .testStart ["s", "b"] (mdr "b" 1) 2, .stepStart tA "st" 1 2,
+    .stepStart tB "st" 2 2, .log tA (some "st") 1 .info "in a" 3]
+
+/-- every thread id becomes 5 -/
+def merge5 : Loc → Nat → Nat := fun _ _ => 5
+
+/-- number of entries of every step of every test of the first suite -/
+def entryCounts : Except WriterErr Report → List (List Nat)
+  | .ok r => (r.suites.flatMap (·.tests)).map (fun t => t.result.steps.map (·.entries.length))
+  | .error _ => []
+
+/-- **Injectivity must be JOINT in (location, thread id)** — injectivity of `ρ l` for every location `l` is not enough, and
+    MERGING thread ids (what the 1-thread stream is with respect to the N-thread one) is not invariant.  Two workers 1, 2
+    with one open step each, in tests `a` and `b`; `ρ = merge5` sends both to 5 (for each location, `ρ l` is injective on the ids
+    occurring at `l`).  The original is disciplined and the log goes into `a`'s step; in the re-labelled stream the log of
+    "thread 5" at `a` finds the step thread 5 opened LAST — `b`'s: outside the discipline, and the plain writer appends the
+    log to `b`'s step.  This is why the discipline of the 1-thread stream is checked on that stream itself
+    (`n_threads_equals_one_thread` below). -/
+theorem injectivity_per_location_is_not_enough :
+    disciplinedTB twoOpen = true ∧
+    (∀ p ∈ tidLocs twoOpen, ∀ q ∈ tidLocs twoOpen, p.1 = q.1 → merge5 p.1 p.2 = merge5 q.1 q.2 → p.2 = q.2) ∧
+    tidInjOnB merge5 twoOpen = false ∧ disciplinedTB (twoOpen.map (relabelTid merge5)) = false ∧
+    entryCounts (fold twoOpen) = [[1], [0]] ∧ entryCounts (fold (twoOpen.map (relabelTid merge5))) = [[0], [1]] := by
+  decide
+
+/-- two `lcc.Thread`s (ids 3 and 4) of test `a`, one after the other -/
+def seqThreads : List Event :=
+  preS ++ [.testStart ["s", "a"] (mdr "a" 0) 2, .stepStart tA "st" 3 2, .log tA (some "st") 3 .info "x" 3, .stepEnd tA "st" 3 4,
+    .stepStart tA "st2" 4 5, .log tA (some "st2") 4 .info "y" 6, .stepEnd tA "st2" 4 7, .testEnd ["s", "a"] 8] ++ postS
+/-- the same two threads, overlapping: both steps open when thread 3 logs -/
+def overlapThreads : List Event :=
+  preS ++ [.testStart ["s", "a"] (mdr "a" 0) 2, .stepStart tA "st" 3 2, .stepStart tA "st2" 4 3,
+    .log tA (some "st") 3 .info "x" 4]
+
+/-- **Merging the ids of threads that do not overlap is fine, merging overlapping ones is not — and `tidSimB` tells them
+    apart.**  `merge5` is not injective on either stream.  On `seqThreads` (what the re-use of thread idents produces) every
+    lookup still finds the same binding: `tidSimB` holds and the report is unchanged.  On `overlapThreads` the re-labelled
+    stream is even INSIDE the discipline (both steps are at the same location) yet the log lands in the other step:
+    the discipline alone does not make a merge safe; `tidSimB` answers false. -/
+theorem merging_thread_ids :
+    tidInjOnB merge5 seqThreads = false ∧ tidSimB merge5 seqThreads = true ∧
+    entryCounts (fold (seqThreads.map (relabelTid merge5))) = entryCounts (fold seqThreads) ∧
+    tidInjOnB merge5 overlapThreads = false ∧ tidSimB merge5 overlapThreads = false ∧
+    disciplinedTB overlapThreads = true ∧ disciplinedTB (overlapThreads.map (relabelTid merge5)) = true ∧
+    entryCounts (fold overlapThreads) = [[1, 0]] ∧ entryCounts (fold (overlapThreads.map (relabelTid merge5))) = [[0, 1]] ∧
+    tidSimB merge5 twoOpen = false := by decide
+
+def twiceSetup : List Event :=
+  [.sessionSetupStart 1, .stepStart .sessionSetup "st" 1 2, .sessionSetupStart 3, .sessionTeardownStart 4,
+   .log .sessionTeardown none 1 .info "x" 5]
+
+/-- one id for the session setup, one for everything else (injective on the pairs of `twiceSetup`) -/
+def split10 : Loc → Nat → Nat := fun l _ => if l = .sessionSetup then 10 else 20
+
+/-- **The extra clause of the discipline is needed** (`sessionFresh`: the session setup / teardown result is started while
+    no step binding points into it; `disc` says this for suite setups / teardowns and tests only).  A second
+    `sessionSetupStart` detaches the step of the first one; the detached `Step` object has lost its location and the writer
+    accepts a log of that thread anywhere (it goes into the orphan step).  The stream is inside `disc`, `ρ = split10` is injective —
+    and the re-labelled stream raises (`assert step, "Cannot find active step"`).  No run fires `sessionSetupStart` twice:
+    `drivers/C05.lean` evaluates the strengthened discipline on every real stream. -/
+theorem sessionFresh_needed :
+    (drun initState twiceSetup).toOption.isSome = true ∧ disciplinedTB twiceSetup = false ∧ errOf (fold twiceSetup) = none ∧
+    tidInjOnB split10 twiceSetup = true ∧
+    errOf (fold (twiceSetup.map (relabelTid split10))) = some .assertActiveStep := by
+  decide
+
+/-! ### (d3) N threads equals one thread, on the real streams -/
+
+/-- **N threads equals one thread — only timestamps differ.**  `esN`, `es1`: the REAL event streams of an N-thread run and of
+    a 1-thread run (thread ids, times, attachment file names as the writer received them).  `a`, `b`: any two streams
+    (the harness's re-labelled ones) such that
+      * `a` is `esN` with thread ids re-labelled by `ρN`, up to times and attachment counters; `b` is `es1` re-labelled
+        by `ρ1` likewise (`SameUpToLabels`);
+      * `ρN` (`ρ1`) is injective on the (location, thread id) pairs of `esN` (`es1`) or, more generally, keeps every lookup
+        on the same binding (`TidOk`);
+      * both real streams are inside the strengthened discipline (this cannot be dropped for `es1`, whose worker id is
+        shared by all tests: `injectivity_per_location_is_not_enough`);
+      * `a` and `b` pass `scheduleCheckB`: same events, no event twice, every two dependent events in the same order.
+    Then both real streams fold without error, the two REAL reports have the same content once times and attachment
+    counters are erased, and under distinct sibling ranks their rank-sorted views — what every reader of the report sees
+    — are EQUAL up to timestamps (and attachment counters). -/
+theorem n_threads_equals_one_thread {esN es1 a b : List Event} {ρN ρ1 : Loc → Nat → Nat}
+    (hdN : DisciplinedT esN) (hd1 : DisciplinedT es1) (hiN : TidOk ρN esN) (hi1 : TidOk ρ1 es1)
+    (haN : SameUpToLabels a (esN.map (relabelTid ρN))) (hb1 : SameUpToLabels b (es1.map (relabelTid ρ1)))
+    (hc : scheduleCheckB a b = true) :
+    ∃ rN r1, fold esN = .ok rN ∧ fold es1 = .ok r1 ∧ SameContent (eraseTimes rN) (eraseTimes r1) ∧
+      (DistinctSiblingRanks rN → eraseTimesSuites (view rN) = eraseTimesSuites (view r1)) := by
+  obtain ⟨wN, hwN⟩ := hdN
+  obtain ⟨w1, hw1⟩ := hd1
+  have fN := (thread_ids_are_only_keys_general ⟨wN, hwN⟩ hiN).2
+  have f1 := (thread_ids_are_only_keys_general ⟨w1, hw1⟩ hi1).2
+  obtain ⟨_, ra, rb, hfa, hfb, hsc, hview⟩ := checked_schedules_give_the_same_report hc
+  have eN := fold_sameUpToLabels haN
+  have e1 := fold_sameUpToLabels hb1
+  rw [fN, fold_of_drunT hwN, hfa] at eN
+  rw [f1, fold_of_drunT hw1, hfb] at e1
+  have eN' : eraseTimes ra = eraseTimes wN.report := by injection eN
+  have e1' : eraseTimes rb = eraseTimes w1.report := by injection e1
+  refine ⟨wN.report, w1.report, fold_of_drunT hwN, fold_of_drunT hw1, ?_, ?_⟩
+  · rw [← eN', ← e1']
+    exact sameContent_lab eraseLab hsc
+  · intro hdr
+    have hdra : DistinctSiblingRanks ra := by
+      rw [← distinctSiblingRanks_eraseTimes, eN', distinctSiblingRanks_eraseTimes]
+      exact hdr
+    have hv := hview hdra
+    rw [← view_eraseTimes, ← view_eraseTimes, ← eN', ← e1', view_eraseTimes, view_eraseTimes, hv]
+
+/-- **The check the harness runs on every pair of REAL streams is sound**: when the boolean `nThreadsCheckB`
+    (`Lemmas/WriterNThreads.lean`; executed by `drivers/C05.lean` on the fired stream of the N-thread run, the fired stream of
+    the 1-thread run, the two re-labelled streams and the two thread-id tables the harness computed) answers `true`, the
+    conclusion of `n_threads_equals_one_thread` holds for the two real streams. -/
+theorem n_threads_check_sound {esN es1 a b : List Event} {tabN tab1 : List ((Loc × Nat) × Nat)}
+    (h : nThreadsCheckB esN es1 a b tabN tab1 = true) :
+    ∃ rN r1, fold esN = .ok rN ∧ fold es1 = .ok r1 ∧ SameContent (eraseTimes rN) (eraseTimes r1) ∧
+      (DistinctSiblingRanks rN → eraseTimesSuites (view rN) = eraseTimesSuites (view r1)) := by
+  simp only [nThreadsCheckB, Bool.and_eq_true, decide_eq_true_eq] at h
+  obtain ⟨⟨⟨⟨⟨⟨h1, h2⟩, h3⟩, h4⟩, h5⟩, h6⟩, h7⟩ := h
+  exact n_threads_equals_one_thread (disciplinedTB_sound h1) (disciplinedTB_sound h2) (tidOkB_sound h3)
+    (tidOkB_sound h4) h5 h6 h7
+
+/-! ### non-vacuity: a 2-worker run and a 1-worker run of the same suite, as the writer receives them -/
+
+def attA (tid : Nat) (file : String) (t : Time) : Event := .attachment tA (some "st") tid file "x" false t
+def attB (tid : Nat) (file : String) (t : Time) : Event := .attachment tB (some "st") tid file "x" false t
+
+/-- two workers (thread ids 11 and 12), `b` starts first and gets attachment number 1; wall-clock times -/
+def realN : List Event :=
+  [.sessionStart 1000, .suiteStart ["s"] (mdr "s" 0) 1001,
+   .testStart ["s", "b"] (mdr "b" 1) 1002, .testStart ["s", "a"] (mdr "a" 0) 1003, .stepStart tB "st" 12 1004,
+   .stepStart tA "st" 11 1005, attB 12 "attachments/0001_x.txt" 1006, attA 11 "attachments/0002_x.txt" 1007,
+   .stepEnd tB "st" 12 1008, .testEnd ["s", "b"] 1009, .stepEnd tA "st" 11 1010, .testEnd ["s", "a"] 1011,
+   .suiteEnd ["s"] 1012, .sessionEnd 1013]
+
+/-- one worker (thread id 7) runs `a` then `b`: other times, other attachment numbers, ONE thread id for both tests -/
+def real1 : List Event :=
+  [.sessionStart 2000, .suiteStart ["s"] (mdr "s" 0) 2001,
+   .testStart ["s", "a"] (mdr "a" 0) 2002, .stepStart tA "st" 7 2003, attA 7 "attachments/0001_x.txt" 2004,
+   .stepEnd tA "st" 7 2005, .testEnd ["s", "a"] 2006,
+   .testStart ["s", "b"] (mdr "b" 1) 2007, .stepStart tB "st" 7 2008, attB 7 "attachments/0002_x.txt" 2009,
+   .stepEnd tB "st" 7 2010, .testEnd ["s", "b"] 2011, .suiteEnd ["s"] 2012, .sessionEnd 2013]
+
+/-- the harness's tables: one id per (location, real thread) in the N-thread run; the 1-thread run gets the ids of the
+    matching N-thread events -/
+def tabN : List ((Loc × Nat) × Nat) := [((tB, 12), 1), ((tA, 11), 2)]
+def tab1 : List ((Loc × Nat) × Nat) := [((tA, 7), 2), ((tB, 7), 1)]
+
+/-- the re-labelled N-thread stream: ids through `tabN`, time := position -/
+def relN : List Event := retimeFrom 0 (realN.map (relabelTid (tableRho tabN)))
+/-- the re-labelled 1-thread stream: each event of `real1` replaced by the matching event of `relN` -/
+def rel1 : List Event := [0, 1, 3, 5, 7, 10, 11, 2, 4, 6, 8, 9, 12, 13].map (relN[·]!)
+
+/-- the hypotheses of `n_threads_equals_one_thread` are satisfiable: the boolean check holds on the two runs -/
+theorem example_runs_pass_the_check : nThreadsCheckB realN real1 relN rel1 tabN tab1 = true := by decide
+
+/-- …and its conclusion says something: the two real reports differ (times, attachment numbers, arrival order of the
+    tests) and are equal once erased and viewed -/
+example : insertionNames (fold realN) = [["b", "a"]] ∧ insertionNames (fold real1) = [["a", "b"]] ∧
+    ∃ rN r1, fold realN = .ok rN ∧ fold real1 = .ok r1 ∧ SameContent (eraseTimes rN) (eraseTimes r1) ∧
+      (DistinctSiblingRanks rN → eraseTimesSuites (view rN) = eraseTimesSuites (view r1)) :=
+  ⟨by decide, by decide, n_threads_check_sound example_runs_pass_the_check⟩
+
+/-- the attachment counter is a label: `eraseTimes` drops it (and nothing else of the name) -/
+example : blankCounter "attachments/0002_x.txt" = "attachments/x.txt" ∧ blankCounter "attachments/0001_x.txt" = "attachments/x.txt" ∧
+    blankCounter "attachments/12345_0_x" = "attachments/0_x" ∧ blankCounter "attachments/001_x" = "attachments/001_x" ∧
+    blankCounter "0001_x" = "0001_x" := by decide
 
 end LccModel.C05
